@@ -131,6 +131,12 @@ def quadraticBezier (s c e : Pt3 α) (segments : Nat) : List (Pt3 α) :=
 def cubicBezier (s c1 c2 e : Pt3 α) (segments : Nat) : List (Pt3 α) :=
   (List.range (segments + 1)).map fun i => cubicPoint s c1 c2 e (Dim2.param i segments)
 
+/-- `QuadraticBezier3D` -/
+structure Quadratic (α : Type) where
+  start : Pt3 α
+  control : Pt3 α
+  end_ : Pt3 α
+  segments : Nat
 structure Cubic (α : Type) where
   start : Pt3 α
   control1 : Pt3 α
